@@ -12,7 +12,7 @@
     below say what [= []] and [= true] mean.  What is assumed about the translator
     is spelled out as the hypotheses of [c18_no_race] and [c18_no_deadlock]. *)
 From KP Require Import model.Base model.Locks proofs.LocksFacts.
-From KP Require Import model.ServiceMap model.Seq props.C18seq.
+From KP Require Import model.ServiceMap model.Seq proofs.SeqInv props.C18seq.
 Local Open Scope N_scope.
 
 (** (a) Guarded accesses are ordered by happens-before: in any trace of
@@ -123,14 +123,14 @@ Print Assumptions c18_pause_gates_have_channels.
 
 (** a real trace satisfies the premises of [locks_sound], and its conclusion is
     a fact about it *)
-Example locks_sound_applies : hb demo_trace 1 4.
+Example locks_sound_applies : hb demo_trace 1%nat 4%nat.
 Proof.
-  apply (locks_sound demo_trace 3 7 demo_wf demo_guarded 1 4 1%nat 2%nat Wr Rd); cbn;
+  apply (locks_sound demo_trace 3%nat 7%nat demo_wf demo_guarded 1%nat 4%nat 1%nat 2%nat Wr Rd); cbn;
     [lia | reflexivity | reflexivity | discriminate | left; reflexivity].
 Qed.
 
 (** without the lock the same two accesses are unordered *)
-Example unguarded_is_a_race : ~ hb racy_trace 0 1.
+Example unguarded_is_a_race : ~ hb racy_trace 0%nat 1%nat.
 Proof. apply racy_unordered. Qed.
 
 (** the checker on a three-function program: [get] locks and reads, [bump] is
